@@ -19,8 +19,9 @@ def main():
     ap.add_argument("--jobs", type=int, default=12)
     ap.add_argument("--only", default="")
     ap.add_argument("--props", default="")
+    ap.add_argument("--dir", default="seeded", help="seeded (changes that break a property) or benign (behaviour-preserving changes)")
     a = ap.parse_args()
-    sd = os.path.join(R.VERIF, "seeded")
+    sd = os.path.join(R.VERIF, a.dir)
     props = a.props.split(",") if a.props else PROPS
     jobs = []
     for s in sorted(os.listdir(sd)):
@@ -37,13 +38,19 @@ def main():
     with cf.ThreadPoolExecutor(max_workers=a.jobs) as ex:
         for kind, name, prop, rc, info in ex.map(R.one, jobs):
             out.setdefault(name, {})[prop] = {"rc": rc, "info": info}
-    path = os.path.join(HERE, "matrix.json")
+    path = os.path.join(HERE, "matrix.json" if a.dir == "seeded" else f"{a.dir}_matrix.json")
     old = {}
     if os.path.exists(path) and (a.only or a.props):
         old = json.load(open(path))
     for k, v in out.items():
         old.setdefault(k, {}).update(v)
     json.dump(old, open(path, "w"), indent=1, sort_keys=True)
+    if a.dir != "seeded":
+        # behaviour-preserving changes: every check must exit 0 on every one of them
+        for name in sorted(out):
+            alarms = {p: (v["rc"], v["info"]) for p, v in out[name].items() if v["rc"] != 0}
+            print(f"{name:9} {'silent' if not alarms else 'ALARM ' + str(alarms)[:400]}")
+        return
     for name in sorted(out):
         own = name.split("-")[0]
         caught = {p: v["info"] for p, v in out[name].items() if v["rc"] == 1}
